@@ -33,6 +33,13 @@ void exit_contract(int c)                                  /* dr_check_ -> exit(
   __CPROVER_assigns(g_exit_calls)
   __CPROVER_ensures(0);
 
+/* libc malloc as used by the bounded jobs (--replace-calls malloc:verif_malloc): a request of at most 64 bytes gets a
+   64-byte object (CBMC runs out of memory on objects of symbolic size); larger requests are an obligation failure */
+void * verif_malloc(size_t sz) {
+  __CPROVER_assert(sz <= 64, "bounded model of malloc: request of at most 64 bytes");
+  return __CPROVER_allocate(64, 0);          /* a fresh dynamic object, contents nondeterministic */
+}
+
 dr_dag_node nondet_node(void);
 dr_clock_pos nondet_clock_pos(void);
 unsigned long long nondet_ull(void);
@@ -176,6 +183,14 @@ static void setup_gs(void) {
   PS.entries = ENT; PS.sz = 8; PS.n = 0;
 }
 
+/* a node with an arbitrary summary and no wild pointers: links are NULL until the harness sets them */
+static dr_dag_node fresh_node(void) {
+  dr_dag_node x = nondet_node();
+  x.next = 0; x.forward = 0;
+  x.subgraphs->n = 0; x.subgraphs->head = 0; x.subgraphs->tail = 0; x.parent_section = 0;
+  return x;
+}
+
 static void assume_summary(dr_dag_node * x) {        /* node invariant of a finished subgraph */
   __CPROVER_assume(x->info.t_1 < CLK_MAX && x->info.t_inf <= x->info.t_1);
   for (int k = 0; k < 4; k++) __CPROVER_assume(0 <= x->info.logical_node_counts[k] && x->info.logical_node_counts[k] < CNT_MAX);
@@ -194,7 +209,7 @@ static void build_closing_node(void) {
   g_n = nondet_int(); g_is_task = nondet_bool();
   __CPROVER_assume(1 <= g_n && g_n <= ACC_N);
   for (int i = 0; i < ACC_N; i++) {
-    CH[i] = nondet_node(); CT[i] = nondet_node();
+    CH[i] = fresh_node(); CT[i] = fresh_node();
     int kd = nondet_int();
     if (i == g_n - 1) __CPROVER_assume(kd == (g_is_task ? dr_dag_node_kind_end_task : dr_dag_node_kind_wait_tasks));
     else if (g_is_task) __CPROVER_assume(kd == dr_dag_node_kind_section || kd == dr_dag_node_kind_other);
@@ -210,9 +225,8 @@ static void build_closing_node(void) {
     }
   }
   __CPROVER_assume(CH[0].info.first_ready_t > 0);
-  S = nondet_node();
+  S = fresh_node();
   S.info.kind = g_is_task ? dr_dag_node_kind_task : dr_dag_node_kind_section;
-  S.next = 0;
   S.subgraphs->n = g_n; S.subgraphs->head = &CH[0]; S.subgraphs->tail = &CH[g_n - 1];
   if (g_is_task) S.active_section = &S; else S.parent_section = 0;
 }
